@@ -1055,4 +1055,31 @@ Proof.
 Qed.
 Lemma exec_reach l s : exec l (init K) = Some s -> reach s.
 Proof. intros H. exists ([] ++ l). eapply exec_reach_from; [constructor|exact H]. Qed.
+
+(* ---- refutations on trees where close() does not reach the served connections ---- *)
+Lemma nth_error_repeat_none (n w : nat) : nth_error (repeat (@None (cid * nat)) n) w = Some None \/ nth_error (repeat (@None (cid * nat)) n) w = None.
+Proof. revert w. induction n as [|n IH]; intros [|w]; cbn; auto. Qed.
+
+Definition w_connected (c : cid) (a : auth) : st :=
+  with_backlog (set_conn (init K) c (k_abeh (k_stage fresh_conn Backlog) a)) [c].
+Definition w_accepted_base (c : cid) (a : auth) : st :=
+  let s1 := w_connected c a in
+  with_backlog (with_accepted (with_clients (set_conn s1 c (k_stage (conns s1 c) Own)) [c]) [c]) [].
+
+(* the witness of the design: one client is accepted, then close(): the client is still being served, its socket was
+   never shut down, its hook has not run, and no thread of the server will ever do anything about it *)
+Theorem close_refuted_pool : kind K = Pool -> pool_close_drops (fx K) = false ->
+  exists s, exec [EConnect 1 AuthOk; EAccept; EClose] (init K) = Some s
+    /\ closed s = true /\ quiescent s
+    /\ stg (conns s 1) = Pooled /\ shut (conns s 1) = false /\ gone (conns s 1) = false
+    /\ authd (conns s 1) = true /\ hooks (conns s 1) = 0 /\ mem 1 (fdmap s) = true.
+Proof.
+  intros Kp Pf. exists (server_close K (pool_register 1 (w_accepted_base 1 AuthOk))). split.
+  - cbn. unfold accept, server_close, w_accepted_base, w_connected, pool_register. cbn. rewrite Kp. cbn. destruct (has_auth K); reflexivity.
+  - unfold server_close. cbn. rewrite Kp, Pf. cbn. repeat split.
+    intros e He. destruct e; try discriminate He; cbn; rewrite ?Kp; try reflexivity.
+    + unfold Server.work. cbn. unfold shut_all, reset_all, upd. cbn. destruct (Nat.eqb c 1); reflexivity.
+    + unfold Server.take_step. cbn. destruct (nth_error _ w) as [[?|]|]; reflexivity.
+    + unfold Server.serve_step. cbn. destruct (nth_error_repeat_none (nworkers K) w) as [-> | ->]; reflexivity.
+Qed.
 End P.
